@@ -650,6 +650,8 @@ class C11RoundTrip(_RestartWatch):
             if e[0] == "R":
                 self.fail(f"roundtrip-raises/{fmt}/{e[1]}", f"stop/start raised {e[1]}")
         post = plain(im.gw.sensors, typed=True)
+        if im.held_at_stop is not None:          # the state when stop() returned (not when it was called)
+            self.pre = plain(im.held_at_stop, typed=True)
         pre = self.pre
         nodes = len(pre)
         self.stats[f"state:nodes={'0' if not nodes else '1-2' if nodes < 3 else '3+'}"] += 1
@@ -746,6 +748,8 @@ class C14CleanStop(_RestartWatch):
             if e[0] == "R":
                 self.fail(f"stop-start-raises/{e[1]}", f"stop/start raised {e[1]}")
         post = plain(im.gw.sensors, typed=True)
+        if im.held_at_stop is not None:          # the state when stop() returned (not when it was called)
+            self.pre = plain(im.held_at_stop, typed=True)
         if post != self.pre:
             fld, desc = where(self.pre, post)
             self.fail(f"stop-loses-state/{fld or 'key-type'}",
